@@ -72,7 +72,8 @@ Record store := mkStore { rows : list row; next_uid : Z }.
 Inductive write :=
 | WIns (r : row)
 | WUpd (t k v : Z)
-| WDel (t k : Z).
+| WDel (t k : Z)
+| WTouch (t k : Z).     (* UPDATE of columns outside the projection (name text, sensitive flag, name_index): row set unchanged *)
 
 Definition at_key (t k : Z) (r : row) : bool := (r_tbl r =? t) && (r_key r =? k).
 
@@ -81,6 +82,7 @@ Definition apply_rows (w : write) (rs : list row) : list row :=
   | WIns r => rs ++ [r]
   | WUpd t k v => map (fun r => if at_key t k r then (t, k, v) else r) rs
   | WDel t k => filter (fun r => negb (at_key t k r)) rs
+  | WTouch _ _ => rs
   end.
 
 (* inserting into managed_objects advances the AUTOINCREMENT counter (sqlite_sequence) in the same transaction *)
@@ -139,6 +141,8 @@ Inductive op :=
 | OActivate (uid : Z)
 | ORevoke (uid : Z) (compromise : bool)
 | ODestroy (uid : Z)
+| OCreateWith (valid : bool) (names : nat) (ws : list write)      (* Create with link-table attributes (object groups, application
+                                                                    specific information): object rows modelled, link rows observed *)
 | OAttr (ok : bool) (ws : list write).                           (* Set/Modify/DeleteAttribute and creations with link-table
                                                                     attributes: row changes observed, discipline modelled *)
 
@@ -160,6 +164,7 @@ Definition attr_write (w : write) : bool :=
   | WIns r => attr_table (r_tbl r)
   | WUpd t _ _ => attr_table t
   | WDel t _ => attr_table t
+  | WTouch t _ => attr_table t || (t =? T_managed)
   end.
 
 (* None = the handler raises before commit (nothing written; session rolled back) *)
@@ -207,6 +212,8 @@ Definition writes_of (o : op) (s : store) : option (list write) :=
         | None => Some [WDel T_managed u]
         end
       else None
+  | OCreateWith valid n ws =>
+      if valid && forallb attr_write ws then Some (map WIns (object_rows uid OT_symmetric nid n) ++ ws) else None
   | OAttr ok ws => if ok && forallb attr_write ws then Some ws else None
   end.
 
